@@ -8,6 +8,7 @@ from mc import lib, pmodel
 from checks import c01
 
 PROPERTY = 'C09'
+CASE_TIMEOUT_S = 60   # bundles hold up to 22k strings (~1 s); a single hanging string trips the watchdog
 RULE = ('language space: all strings of <=L tokens over a 28-token alphabet (BFS by length, bundled by 2-token prefix); '
         'mutation space: delete / insert any token / swap neighbours / duplicate at every character position of every '
         'valid string of the C01 level<=1 space; pumping: every <=3-token string with each token repeated 1..8 times; '
@@ -86,12 +87,12 @@ def gen(shard, tier):
         for slot in SLOTS:
             for val in CORPUS_MUST_RAISE:
                 for mult in (1, 2):
-                    yield {'kind': 'deferred', 'slot': slot, 'val': val, 'mult': mult}, 1, True
+                    yield {'kind': 'deferred', 'slot': slot, 'val': val, 'mult': mult, '_timeout': 10}, 1, True
                 # next to a resolvable modification in the same slot (before and after it)
-                yield {'kind': 'deferred', 'slot': slot, 'val': val, 'mult': 1, 'with': 'after'}, 2, True
-                yield {'kind': 'deferred', 'slot': slot, 'val': val, 'mult': 1, 'with': 'before'}, 2, True
+                yield {'kind': 'deferred', 'slot': slot, 'val': val, 'mult': 1, 'with': 'after', '_timeout': 10}, 2, True
+                yield {'kind': 'deferred', 'slot': slot, 'val': val, 'mult': 1, 'with': 'before', '_timeout': 10}, 2, True
         for val in ('Formula:C]H', 'Formula:C2]', 'Glycan:Hex]2', 'Formula:]'):   # only writable inside {...}
-            yield {'kind': 'deferred', 'slot': 'labile', 'val': val, 'mult': 1}, 1, True
+            yield {'kind': 'deferred', 'slot': 'labile', 'val': val, 'mult': 1, '_timeout': 5}, 1, True
 
 
 def _one(p, ctx, s):
